@@ -93,6 +93,7 @@ var errClasses = []struct{ sub, class string }{
 	{"missing size", "missingsize"},
 	{"bad value type", "badtype"},
 	{"invalid format: option size overflow", "sizeoverflow"},
+	{"format result too large", "toolarge"},
 	{"overflow", "overflow"},
 	{"invalid next option", "expectedoption"},
 	{"alignment not power of 2", "badalign"},
